@@ -24,8 +24,11 @@ import traceback
 from pathlib import Path
 
 VERIF = Path(__file__).resolve().parent.parent
-EVIDENCE_DIR = VERIF / "evidence"
-REPLAY_DIR = VERIF / "replays"
+# Runs against a deliberately changed tree (tools/seedcheck.py etc.) set VERIF_SCRATCH_OUT so that they
+# do not overwrite the evidence of the unchanged tree; the registered commands never set it.
+_OUT = Path(os.environ["VERIF_SCRATCH_OUT"]) if os.environ.get("VERIF_SCRATCH_OUT") else VERIF
+EVIDENCE_DIR = _OUT / "evidence"
+REPLAY_DIR = _OUT / "replays"
 FINDINGS_FILE = VERIF / "known_findings.json"
 
 MAX_VIOLATIONS_KEPT_PER_CLASS = 5
@@ -237,7 +240,7 @@ def run(check_mod, tier, seed) -> int:
     pid = chk.pid
     t0 = time.time()
     ev_path = EVIDENCE_DIR / f"{pid}.json"
-    EVIDENCE_DIR.mkdir(exist_ok=True)
+    EVIDENCE_DIR.mkdir(parents=True, exist_ok=True)
     if ev_path.exists():
         ev_path.unlink()
 
